@@ -8,5 +8,5 @@ OBLIGATIONS.append(dict(id='C07.sum', engine='V', verus_fn='get_buffer_sum', ver
 OBLIGATIONS.append(ob('C07.aggregate.inner', 'verif_frag::evalshim::c07_aggregate_dispatch', 'get_function_value (verbatim body on a shim world), aggregate branch: the inner expression is evaluated for the entry and the aggregate reads the buffer column named by the inner expression text', units=['evalshim'], complete=False, bound='1 concrete aggregate expression'))
 CANARIES = []
 ASSUMPTIONS = ['bounded operand domain for the AVG division (see obligation)']
-NOT_COVERED = ['MIN/MAX/COUNT arms, variance/stddev (iterator adapters, f64 loops over HashMap rows)', 'that the SUM of the property is an i64 sum of the column: get_buffer_sum parses usize, so negative values are skipped', 'the buffering of rows', 'WHERE-before-aggregate']
+NOT_COVERED = ['MIN/MAX/COUNT arms', 'VAR_* / STDDEV_*: get_variance uses f64::powi, which CBMC does not model (a verbatim-body harness on concrete rows failed spuriously and passed natively; removed)', 'that the SUM of the property is an i64 sum of the column: get_buffer_sum parses usize, so negative values are skipped', 'the buffering of rows', 'WHERE-before-aggregate']
 HARNESS_TIMEOUT = 240
